@@ -21,6 +21,9 @@ var runes = []string{"{", "}", "[", "]", "(", ")", "$", "@", "%", "'", "\"", "\\
 var core = []string{"{", "}", "(", ")", "[", "$", "@", "%", "'", "\"", "\\", "|", "&", ":", " ", "a"}
 var tokens = []string{"${", "@{", "%[", "%{", "%(", "->", "=>", "|>", ">>", "&&", "||", "/#", "#/", "..", "<out>", "<!out>", "$a[", "[[", "]]", "\n", "$a", "@a", "a", " ", ":", "{", "}", "(", ")", "]", "'", "\"", "=", "$(", "~", ";", "?", "*"}
 
+// tokens that follow a command name: index / lambda / sub-shell openers and closers
+var argTokens = []string{"$a[", "{", "}", "a", "]", "[", "@a[", "$a", "(", ")", "%[", "'", "\"", "|", " ", "${", "=", ":"}
+
 var ansi = regexp.MustCompile("\x1b\\[[0-9;]*m")
 
 type space struct {
@@ -28,13 +31,14 @@ type space struct {
 	alpha  []string
 	minLen int
 	maxLen int
+	prefix string
 }
 
 func spaces(quick bool) []space {
 	if quick {
-		return []space{{"runes", runes, 0, 4}, {"core", core, 5, 5}, {"tokens", tokens, 2, 3}}
+		return []space{{"runes", runes, 0, 4, ""}, {"core", core, 5, 5, ""}, {"tokens", tokens, 2, 3, ""}, {"arguments", argTokens, 1, 4, "a "}}
 	}
-	return []space{{"runes", runes, 0, 5}, {"core", core, 6, 7}, {"tokens", tokens, 2, 4}}
+	return []space{{"runes", runes, 0, 5, ""}, {"core", core, 6, 7, ""}, {"tokens", tokens, 2, 4, ""}, {"arguments", argTokens, 1, 6, "a "}}
 }
 
 var current atomic.Value // string: input being parsed (watchdog)
@@ -43,7 +47,7 @@ var progress atomic.Int64
 func init() {
 	vlib.Register(&vlib.Check{
 		ID: "C20", Engine: "E2",
-		Rule: "every string over the 31-rune murex alphabet up to length L, every string over the 16-rune core up to L2 and every sequence of multi-rune tokens up to L3 is passed to expressions.ParseBlock, parser.Parse(r,0) and parser.Parse(r,len/2); enumeration never repeats an input; non-trivial = inputs for which ParseBlock produced a syntax tree with at least one function or a syntax error (i.e. everything except inputs that parse to an empty tree)",
+		Rule: "every string over the 31-rune murex alphabet up to length L, every string over the 16-rune core up to L2, every sequence of multi-rune tokens up to L3 and every sequence of up to L4 argument tokens (index, lambda, sub-shell, quote openers and closers) after a command name is passed, as a rune slice whose capacity equals its length, to expressions.ParseBlock, parser.Parse(r,0) and parser.Parse(r,len/2); enumeration never repeats an input; non-trivial = inputs for which ParseBlock produced a syntax tree with at least one function or a syntax error (i.e. everything except inputs that parse to an empty tree)",
 		Run:  func(c *vlib.Ctx) { run(c, true) },
 		Replay: func(c *vlib.Ctx, w string) {
 			one(c, w, true)
@@ -77,6 +81,7 @@ func run(c *vlib.Ctx, c20 bool) {
 			if n&0xfff == 0 && c.Expired() {
 				return false
 			}
+			s = sp.prefix + s
 			one(c, s, c20)
 			if n%200003 == 1 {
 				c.Sample(map[string]any{"space": sp.name, "input": s})
@@ -153,6 +158,9 @@ func frames(st string) string {
 
 func one(c *vlib.Ctx, s string, c20 bool) {
 	r := []rune(s)
+	// exact capacity: a parser that reads one rune past the end of its input then fails on every
+	// input, not only on those whose length happens to fill an allocation size class
+	r = r[:len(r):len(r)]
 	if c20 {
 		current.Store(s)
 		progress.Add(1)
